@@ -130,8 +130,8 @@ PROPS["C20"] = {
 }
 
 PROPS["C07"] = {
-    "module": "Matreex.Props.C07", "harness": "C07",
-    "technique": "Lean 4 theorems: == is exactly logical equality for every pair of orders (cross-order get_unchecked in bounds), hence reflexive/symmetric/transitive; congruence of the order-agnostic operations w.r.t. logical equality as corollaries of their specifications (C04, C05, C10, C11, C12, C14, C20) + metamorphic correspondence (programs run row-major and with mixed orders / inserted switch_order)",
+    "module": "Matreex.Props.C07", "harness": "C07", "extra_modules": ["Matreex.Props.C07Programs"],
+    "technique": "Lean 4 theorems: storage order is transparent for EVERY program of order-agnostic operations with order switches inserted anywhere (programs_order_transparent, through the refinement to the logical reference model); == is exactly logical equality for every pair of orders (cross-order get_unchecked in bounds), hence reflexive/symmetric/transitive; congruence of the order-agnostic operations w.r.t. logical equality as corollaries of their specifications (C04, C05, C10, C11, C12, C14, C20) + metamorphic correspondence (programs run row-major and with mixed orders / inserted switch_order)",
     "trusted": ["PartialEq for Vec / slices modelled as length + pairwise comparison; element PartialEq is an input function",
                 "the congruence theorems cover get, transpose, swap_rows, overwrite, elementwise operations, multiply and Display; swap_cols, swap, scalar operations, map/apply and the views are covered by their own specifications (C06, C10, C18) plus the metamorphic runs, not by a separate congruence theorem"],
     "assumptions": ["Coh and size <= usize::MAX (C01)"],
